@@ -9,6 +9,10 @@ for d in sorted(glob.glob(V + "/seeded/*/")):
     origin = "white-box (7.7)" if m["origin"].startswith("white-box") else \
         "independent, round 3" if "third round" in m["origin"] else \
         "independent, round 2" if "second round" in m["origin"] else "independent, round 1"
+    if m.get("superseded_by"):
+        rows.append(f"| {name} | {origin} | {', '.join(x.replace('fibertree/', '') for x in m['files_changed'])} | "
+                    f"{m['needs_to_manifest']} | (no longer breaks the property: {m['superseded_by']}) | - |")
+        continue
     rows.append(f"| {name} | {origin} | {', '.join(x.replace('fibertree/', '') for x in m['files_changed'])} | {m['needs_to_manifest']} | "
                 f"{'; '.join(m['detected_by']) or '-'} | {'; '.join(m['not_detected_by']) or '-'} |")
 p = V + "/DESIGN.md"
